@@ -78,6 +78,7 @@ def check(ctx):
     check_class_guard(ctx)
     check_axes(ctx)
     check_ranking(ctx)
+    check_counter_capacity(ctx)
 
 
 def _draw_ok(fi, expr, nid, depth=0):
@@ -383,3 +384,80 @@ def check_ranking(ctx):
            'ranking' if ok else
            f'votes and correlation sums are gathered with {sorted(idx)}: '
            'shares and correlations of different candidates are paired')
+
+
+def check_counter_capacity(ctx):
+    """a vote counter whose integer type is chosen by choose_int_dtype can
+    hold every count it may reach: the bound handed to choose_int_dtype
+    derives from the number of iterations of the loop that increments the
+    counter (one vote per cell per bootstrap iteration).  A capacity taken
+    from anything else wraps around for runs with more iterations than
+    that, and the plurality is lost."""
+    db = ctx.db
+    rule = 'R-CAP/vote-counter'
+    n = 0
+    for q in ('type_assignment.election:tally_votes',):
+        fi = db.fn(q)
+        ctx.touch(fi)
+        arrs = dict()
+        for st in ast.walk(fi.node):
+            if isinstance(st, ast.Assign) and isinstance(
+                    st.targets[0], ast.Name) and isinstance(
+                        st.value, ast.Call) and unparse(
+                            st.value.func) in ('np.zeros', 'np.ones',
+                                               'np.empty'):
+                for kw in st.value.keywords:
+                    if kw.arg == 'dtype':
+                        arrs[st.targets[0].id] = kw.value
+        for a in ast.walk(fi.node):
+            if not (isinstance(a, ast.AugAssign) and isinstance(
+                    a.op, ast.Add) and isinstance(a.target, ast.Subscript)
+                    and isinstance(a.target.value, ast.Name)
+                    and a.target.value.id in arrs):
+                continue
+            dt = arrs[a.target.value.id]
+            sl = backward_slice(fi, dt)
+            if 'choose_int_dtype' not in sl.call_names():
+                continue        # a fixed type: not judged here
+            # the loops around the increment
+            need = set()
+            rd = rd_of(fi)
+
+            def loops_around(node):
+                p = getattr(node, '_parent', None)
+                while p is not None and not isinstance(p, ast.FunctionDef):
+                    if isinstance(p, ast.For):
+                        yield p
+                    p = getattr(p, '_parent', None)
+            todo = list(loops_around(a))
+            seen_loops = set()
+            while todo:
+                lp = todo.pop()
+                if id(lp) in seen_loops:
+                    continue
+                seen_loops.add(id(lp))
+                it = lp.iter
+                if isinstance(it, ast.Call) and isinstance(
+                        it.func, ast.Name) and it.func.id == 'range':
+                    for arg in it.args:
+                        need |= backward_slice(fi, arg).params
+                    continue
+                # a loop over lists filled elsewhere: as many iterations
+                # as the loop(s) that appended to them
+                for x in ast.walk(it):
+                    if isinstance(x, ast.Name):
+                        for (mn, astn, how) in rd.mutations(x.id):
+                            if how == 'append':
+                                todo += list(loops_around(astn))
+            n += 1
+            ok = bool(need) and need <= sl.params
+            ctx.ob(rule, f'{fi.qual}:counter#{n - 1}', fi.loc(a), ok,
+                   'the counter type is sized from the iteration count '
+                   f'({sorted(need)})' if ok else
+                   f'`{unparse(a)[:50]}` is incremented once per iteration '
+                   f'of a loop bounded by {sorted(need)}, but its integer '
+                   f'type is sized from {sorted(sl.params)}: with more '
+                   'iterations than that capacity the count wraps around')
+    if n == 0:
+        raise AnalysisError('no vote counter with a chosen integer type '
+                            'found in tally_votes')
